@@ -18,8 +18,10 @@ From Coq Require Import ZArith NArith List Bool.
 Import ListNotations.
 Open Scope Z_scope.
 
-Inductive ctype := CRun | CTagged | CChained.
-Inductive err := EMissing | ECycle | ECollType | EConflict | EFk | EFuel | EOther.   (* EOther: never produced by the model *)
+Inductive ctype := CRun | CTagged | CChained | CCalib.
+(* ENotImpl: NotImplementedError; ETypeErr: DatasetTypeError; EMissingType: MissingDatasetTypeError;
+   EOther: never produced by the model *)
+Inductive err := EMissing | ECycle | ECollType | EConflict | EFk | EFuel | ENotImpl | ETypeErr | EMissingType | EOther.
 Inductive outcome := Done | Refused (e : err).
 Inductive res (A : Type) := Ok (a : A) | Err (e : err).
 Arguments Ok {A} a.
@@ -32,15 +34,28 @@ Record st := mkSt {
   rows : list row;                (* collection_chain table, in insertion order *)
   cont : list ent;                (* dataset membership, in insertion (= arbitrary fetch) order *)
   summ : list (N * N);            (* collection summary: (collection, dataset type) *)
-  gsumm : list (N * N)            (* collection summary: (collection, governor value) *)
+  gsumm : list (N * N * N);       (* collection summary: (collection, governor dimension, value), one table per
+                                     governor dimension in the code (collection_summary_instrument / _skymap) *)
+  tys : list (N * (list N * bool))  (* dataset type -> (governor dimensions among its dimensions, isCalibration) *)
 }.
-Definition init : st := mkSt [] [] [] [] [].
+Definition init : st := mkSt [] [] [] [] [] [].
 
-(* governor (instrument) of a data ID: the harness encodes data ID = 16 * instrument + detector *)
-Definition gov (d : N) : N := N.div d 16.
+(* value of governor dimension g in data ID d.  The harness encodes a data ID as
+     d = 64 * (skymap index + 1, or 0 = no skymap) + 16 * instrument + detector
+   governor dimension 0 = instrument, any other number = skymap.  A data ID of a dataset type only has the
+   governors of that type; gval is consulted only for those (tgov). *)
+Definition gval (g d : N) : N :=
+  match g with 0%N => N.modulo (N.div d 16) 4 | _ => N.div d 64 end.
 
 Fixpoint memN (x : N) (l : list N) : bool :=
   match l with [] => false | y :: t => N.eqb x y || memN x t end.
+Fixpoint mem3 (x : N * N * N) (l : list (N * N * N)) : bool :=
+  match l with
+  | [] => false
+  | y :: t => (N.eqb (fst (fst x)) (fst (fst y)) && N.eqb (snd (fst x)) (snd (fst y)) && N.eqb (snd x) (snd y)) || mem3 x t
+  end.
+Fixpoint lookupNN (g : N) (l : list (N * N)) : option N :=
+  match l with [] => None | (h, v) :: t => if N.eqb g h then Some v else lookupNN g t end.
 Fixpoint memNN (x : N * N) (l : list (N * N)) : bool :=
   match l with [] => false | y :: t => (N.eqb (fst x) (fst y) && N.eqb (snd x) (snd y)) || memNN x t end.
 
@@ -50,6 +65,14 @@ Definition is_chained (s : st) (n : N) : bool :=
   match ctype_of (colls s) n with Some CChained => true | _ => false end.
 Definition exists_c (s : st) (n : N) : bool :=
   match ctype_of (colls s) n with Some _ => true | None => false end.
+Definition is_calib (s : st) (n : N) : bool :=
+  match ctype_of (colls s) n with Some CCalib => true | _ => false end.
+
+(* dataset types: their governor dimensions and the isCalibration flag *)
+Fixpoint ty_of (ts : list (N * (list N * bool))) (ty : N) : option (list N * bool) :=
+  match ts with [] => None | (m, x) :: r => if N.eqb ty m then Some x else ty_of r ty end.
+Definition tgov (s : st) (ty : N) : list N := match ty_of (tys s) ty with Some (g, _) => g | None => [] end.
+Definition is_calty (s : st) (ty : N) : bool := match ty_of (tys s) ty with Some (_, b) => b | None => false end.
 
 (* ---- children of a chain: rows of the parent sorted by position (_rows_to_chains) ---- *)
 Fixpoint ins (r : Z * N) (l : list (Z * N)) : list (Z * N) :=
@@ -159,7 +182,7 @@ Definition apply_edit (rs : list row) (k : kind) (p : N) (cs : list N) : list ro
       rs1 ++ enum_rows p start ks
   | KRemove => drop_children rs p ks
   end.
-Definition set_rows (s : st) (rs : list row) : st := mkSt (colls s) rs (cont s) (summ s) (gsumm s).
+Definition set_rows (s : st) (rs : list row) : st := mkSt (colls s) rs (cont s) (summ s) (gsumm s) (tys s).
 
 (* _modify_collection_chain: cycle check (not for remove) -> children resolved -> parent looked up and
    locked -> rows rewritten.  The order of the refusals is the order of the code. *)
@@ -190,16 +213,34 @@ Inductive op :=
 | OReg (n : N) (t : ctype)            (* registerCollection / registerRun *)
 | ORmColl (n : N)                     (* removeCollection *)
 | OSet (c ty d k : N)                 (* put into a RUN (fresh k) / associate into a TAGGED collection *)
-| OEdit (k : kind) (p : N) (cs : list N).
+| OEdit (k : kind) (p : N) (cs : list N)
+| OType (ty : N) (gs : list N) (cal : bool)   (* registerDatasetType: governor dimensions, isCalibration *)
+| OCert (c ty d k : N)                (* certify dataset k into a CALIBRATION collection, validity range unbounded *)
+| OEditFlat (p : N) (cs : list N).    (* Registry.setCollectionChain(p, cs, flatten=True) *)
 
 Definition ctype_eqb (a b : ctype) : bool :=
-  match a, b with CRun, CRun | CTagged, CTagged | CChained, CChained => true | _, _ => false end.
+  match a, b with CRun, CRun | CTagged, CTagged | CChained, CChained | CCalib, CCalib => true | _, _ => false end.
+Fixpoint listN_eqb (a b : list N) : bool :=
+  match a, b with [] , [] => true | x :: r, y :: t => N.eqb x y && listN_eqb r t | _, _ => false end.
+
+(* a new member row with the summary rows the insert adds: the dataset type and, for every governor dimension
+   of the dataset type, the value of the data ID (CollectionSummary.add_datasets) *)
+Definition add_ent (s : st) (c ty d k : N) : st :=
+  mkSt (colls s) (rows s) (cont s ++ [mkEnt c ty d k])
+       ((c, ty) :: summ s) (map (fun g => (c, g, gval g d)) (tgov s ty) ++ gsumm s) (tys s).
+
+(* setCollectionChain(flatten=True): children = queryCollections(children, flattenChains=True), then update_chain *)
+Definition edit_flat (s : st) (p : N) (cs : list N) : st * outcome :=
+  match flatten s cs with
+  | Err e => (s, Refused e)
+  | Ok l => edit s KRedefine p l
+  end.
 
 Definition step (s : st) (o : op) : st * outcome :=
   match o with
   | OReg n t =>
       match ctype_of (colls s) n with
-      | None => (mkSt (colls s ++ [(n, t)]) (rows s) (cont s) (summ s) (gsumm s), Done)
+      | None => (mkSt (colls s ++ [(n, t)]) (rows s) (cont s) (summ s) (gsumm s) (tys s), Done)
       | Some _ => (s, Done)     (* CollectionManager.register returns the existing record, type not compared *)
       end
   | ORmColl n =>
@@ -211,20 +252,41 @@ Definition step (s : st) (o : op) : st * outcome :=
                      (filter (fun r => negb (N.eqb (rparent r) n)) (rows s))           (* ON DELETE CASCADE *)
                      (filter (fun e => negb (N.eqb (ecoll e) n)) (cont s))
                      (filter (fun x => negb (N.eqb (fst x) n)) (summ s))
-                     (filter (fun x => negb (N.eqb (fst x) n)) (gsumm s)), Done)
+                     (filter (fun x => negb (N.eqb (fst (fst x)) n)) (gsumm s)) (tys s), Done)
       end
   | OSet c ty d k =>
+      match ty_of (tys s) ty with
+      | None => (s, Refused EMissingType)          (* the dataset type is resolved first *)
+      | Some _ =>
       match ctype_of (colls s) c with
       | None => (s, Refused EMissing)
       | Some CChained => (s, Refused ECollType)
+      | Some CCalib => (s, Refused ECollType)      (* neither put(run=) nor associate accept a CALIBRATION collection *)
       | Some t =>
           match lookup_ent (cont s) c ty d with
           | Some k' => if N.eqb k k' && ctype_eqb t CTagged then (s, Done) else (s, Refused EConflict)
-          | None => (mkSt (colls s) (rows s) (cont s ++ [mkEnt c ty d k])
-                          ((c, ty) :: summ s) ((c, gov d) :: gsumm s), Done)
+          | None => (add_ent s c ty d k, Done)
           end
       end
+      end
   | OEdit k p cs => edit s k p cs
+  | OType ty gs cal =>
+      match ty_of (tys s) ty with
+      | None => (mkSt (colls s) (rows s) (cont s) (summ s) (gsumm s) (tys s ++ [(ty, (gs, cal))]), Done)
+      | Some (gs', cal') => if listN_eqb gs gs' && Bool.eqb cal cal' then (s, Done) else (s, Refused EConflict)
+      end
+  | OCert c ty d k =>
+      match ctype_of (colls s) c with
+      | None => (s, Refused EMissing)
+      | Some t =>
+          if negb (is_calty s ty) then (s, Refused ETypeErr)
+          else if negb (ctype_eqb t CCalib) then (s, Refused ECollType)
+          else match lookup_ent (cont s) c ty d with
+               | Some _ => (s, Refused EConflict)      (* overlapping validity range for the same data ID *)
+               | None => (add_ent s c ty d k, Done)
+               end
+      end
+  | OEditFlat p cs => edit_flat s p cs
   end.
 Definition run (s : st) (ops : list op) : st := fold_left (fun s o => fst (step s o)) ops s.
 
@@ -236,10 +298,30 @@ Fixpoint first_match (cn : list ent) (ty d : N) (path : list N) : option N :=
   | c :: t => match lookup_ent cn c ty d with Some k => Some k | None => first_match cn ty d t end
   end.
 
-(* summary pruning (filter_dataset_collections / _resolve_dataset_search) *)
-(* gc = the query constrains the governor (always so for findDataset, whose data ID is complete) *)
-Definition prune (s : st) (gc : bool) (ty d : N) (path : list N) : list N :=
-  filter (fun c => memNN (c, ty) (summ s) && (negb gc || memNN (c, gov d) (gsumm s))) path.
+(* summary pruning (CollectionSummary.is_compatible_with via filter_dataset_collections for findDataset and the
+   legacy queries; DirectQueryDriver._resolve_dataset_search for the new query system).  `cons` is the constraint
+   data ID: governor dimension -> value, from the data ID and the WHERE clause of the query.  A collection is
+   dropped when its summary does not list the dataset type, or when for a governor dimension that is
+     (a) constrained, (b) present in the collection's summary (any value), (c) a dimension of the DATASET TYPE
+   the constrained value is not among the summary's values.  (c) matters: the governor summary is per collection,
+   over all dataset types in it. *)
+Definition has_gov (s : st) (c g : N) : bool :=
+  existsb (fun x => N.eqb (fst (fst x)) c && N.eqb (snd (fst x)) g) (gsumm s).
+Definition gov_ok (s : st) (cons : list (N * N)) (c g : N) : bool :=
+  match lookupNN g cons with
+  | None => true
+  | Some v => negb (has_gov s c g) || mem3 (c, g, v) (gsumm s)
+  end.
+Definition keep (s : st) (cons : list (N * N)) (ty c : N) : bool :=
+  memNN (c, ty) (summ s) && forallb (gov_ok s cons c) (tgov s ty).
+Definition prune (s : st) (cons : list (N * N)) (ty : N) (path : list N) : list N := filter (keep s cons ty) path.
+(* findDataset standardizes the data ID to the dimensions of the dataset type: its governors, fully constrained *)
+Definition cons_of (s : st) (ty d : N) : list (N * N) := map (fun g => (g, gval g d)) (tgov s ty).
+(* does data ID d (of dataset type ty) satisfy the constraint? *)
+Definition consistent (s : st) (cons : list (N * N)) (ty d : N) : bool :=
+  forallb (fun g => match lookupNN g cons with None => true | Some v => N.eqb (gval g d) v end) (tgov s ty).
+(* findDataset(timespan=None): "any CALIBRATION collections matched ... will not be searched" *)
+Definition skip_calib (s : st) (path : list N) : list N := filter (fun c => negb (is_calib s c)) path.
 (* the rows the SQL query returns: every member row of one of the collections, in table order *)
 Definition match_rows (cn : list ent) (ty d : N) (cs : list N) : list (N * N) :=
   map (fun e => (ecoll e, eid e))
@@ -256,7 +338,15 @@ Definition min_rank (path : list N) (rws : list (N * N)) : option N :=
                            rest r0))
   end.
 Definition find_rank (s : st) (ty d : N) (names : list N) : res (option N) :=
-  map_res (fun path => let fc := prune s true ty d path in min_rank fc (match_rows (cont s) ty d fc)) (flatten s names).
+  map_res (fun path => let fc := skip_calib s (prune s (cons_of s ty d) ty path) in
+                       min_rank fc (match_rows (cont s) ty d fc)) (flatten s names).
+(* Butler.get / DirectButler._findDatasetRef: a calibration dataset type is looked up with
+   timespan = Timespan(None, None) when the data ID has no temporal dimension, so CALIBRATION collections ARE
+   searched (every certification of this model is unbounded: it overlaps) *)
+Definition find_get (s : st) (ty d : N) (names : list N) : res (option N) :=
+  map_res (fun path => let fc0 := prune s (cons_of s ty d) ty path in
+                       let fc := if is_calty s ty then fc0 else skip_calib s fc0 in
+                       min_rank fc (match_rows (cont s) ty d fc)) (flatten s names).
 
 (* 2. new query system: rank by CASE, ROW_NUMBER() OVER (PARTITION BY data id ORDER BY rank) = 1;
       no window when at most one collection survives the pruning *)
@@ -273,8 +363,21 @@ Definition window (path : list N) (rws : list (N * N)) : list N :=
 Definition search_rows (s : st) (ty d : N) (fc : list N) : list N :=
   let rws := match_rows (cont s) ty d fc in
   if Nat.leb (length fc) 1 then map snd rws else window fc rws.
-Definition find_window (s : st) (gc : bool) (ty d : N) (names : list N) : res (list N) :=
-  map_res (fun path => search_rows s ty d (prune s gc ty d path)) (flattenB s names).
-(* 3. legacy relation engine: the path comes from resolve_wildcard, same pruning, same window, same shortcut *)
-Definition find_legacy (s : st) (gc : bool) (ty d : N) (names : list N) : res (list N) :=
-  map_res (fun path => search_rows s ty d (prune s gc ty d path)) (flatten s names).
+(* rows of the query for data ID d: none when d contradicts the constraint *)
+Definition answer (s : st) (cons : list (N * N)) (ty d : N) (fc : list N) : list N :=
+  if consistent s cons ty d then search_rows s ty d fc else [].
+Definition find_window (s : st) (cons : list (N * N)) (ty d : N) (names : list N) : res (list N) :=
+  map_res (fun path => answer s cons ty d (prune s cons ty path)) (flattenB s names).
+(* 3. legacy relation engine: the path comes from resolve_wildcard, same pruning, same window, same shortcut.
+      resolve_dataset_collections(allow_calibration_collections=False): a CALIBRATION collection that survives
+      the pruning raises NotImplementedError when it was named explicitly; one reached through a chain is
+      reported as "not searched" in the rejections and then searched all the same (the append sits inside
+      `if rejections is not None`, and QueryBuilder.joinDataset always passes a list) *)
+Definition find_legacy (s : st) (cons : list (N * N)) (ty d : N) (names : list N) : res (list N) :=
+  match flatten s names with
+  | Err e => Err e
+  | Ok path =>
+      let fc := prune s cons ty path in
+      if existsb (fun c => is_calib s c && memN c names) fc then Err ENotImpl
+      else Ok (answer s cons ty d fc)
+  end.
